@@ -82,6 +82,26 @@ def create(spec: dict):
         deck = tuple(pk.int_card(c) for c in spec['deck_list']) if 'deck_list' in spec else DECKS[spec['deck']]
         return State(autos, deck, types, streets, BettingStructure(spec['structure']), spec['trim'],
                      spec['antes'], spec['blinds'], spec['bringin'], spec['stacks'], spec['n'], **kw)
+    if spec.get('via_phh') == 'written':
+        # the other direction: the code under which the hand-history writer files a hand of the game object, read back
+        from pokerkit import HandHistory
+        saved, pk.Tracer.active = pk.Tracer.active, None
+        try:
+            game, st0 = _direct(spec, autos, kw)
+        finally:
+            pk.Tracer.active = saved
+        try:
+            hh = HandHistory.from_game_state(game, st0)
+        except KeyError:
+            Last.written = None                       # no code for this game: nothing is written, the game itself is played
+            Last.game = game
+            Shuffles.rng = random.Random(spec['seed'])
+            return game(spec['stacks'], spec['n'])
+        Last.written = hh.variant
+        hh.automations = autos
+        Last.game = hh.create_game()
+        Shuffles.rng = random.Random(spec['seed'])
+        return hh.create_state()
     if spec.get('via_phh'):
         # the game behind a hand-history variant code (C11: the codes map to the same games)
         from pokerkit import HandHistory
@@ -97,6 +117,13 @@ def create(spec: dict):
         hh = HandHistory(**f)
         Last.game = hh.create_game()
         return hh.create_state()
+    game, st = _direct(spec, autos, kw)
+    Last.game = game
+    return st
+
+
+def _direct(spec, autos, kw):
+    v = spec['variant']
     cls = getattr(pg, VARIANTS[v][0])
     kind = VARIANTS[v][1]
     if kind == 'mb':
@@ -107,13 +134,13 @@ def create(spec: dict):
         game = cls(autos, spec['trim'], spec['antes'], spec['bringin'], spec['sb'], spec['bb'], **kw)
     else:
         raise KeyError(v)
-    Last.game = game
-    return game(spec['stacks'], spec['n'])
+    return game, game(spec['stacks'], spec['n'])
 
 
 class Last:
     """the game object behind the most recently created state (the hand-history writer wants it)"""
     game = None
+    written = None
 
 
 def random_spec(rng: random.Random, *, variants=None, autos='random', mode=None, max_n=None, stacks='mixed',
@@ -150,7 +177,7 @@ def random_spec(rng: random.Random, *, variants=None, autos='random', mode=None,
     if chips:
         spec['chips'] = chips
     if via_phh:
-        spec['via_phh'] = True
+        spec['via_phh'] = via_phh
         spec['mode'] = 'C'
         spec['autos'] = [a for a in spec['autos'] if a != 'Card burning']
     # antes
